@@ -39,11 +39,11 @@ RULE = ("one case = (operation instance, aspect); operation instances: 4 plate g
         "RandomScorer, DBAL kernel and GaussianDBALScorer with a triple budget below C(n,3), KPerSample policy, select_next_plate, "
         "score_chunk with / without rng, sampling.sample on the two legacy Gibbs models and on the variational ComboGridFactorModel (pyro / torch; one epoch, "
         "1-3 optimiser steps, n_grid 4-6), and the 6 CLI main()s that declare --seed in-process (prepare, calculate_scores, train_model, select_next_plate, "
-        "evaluate_model, analyze_model_evaluation: its published PDFs compared without /CreationDate); "
+        "evaluate_model, analyze_model_evaluation: its published PDFs compared without /CreationDate, judged like every other operation since the repair of its unread --seed); "
         "inputs are random small screens built from a per-case seed; each instance is executed twice with the same seed under "
         "different global-generator states (numpy, python random and - when torch is importable - torch's, all three reseeded, advanced and compared before / "
         "after) with all numpy.random module functions, default_rng, seedless RandomState() / SeedSequence() / bit-generator constructions and torch's "
-        "module-level drawing / seeding functions trapped; operations with a recorded known leak (training, analyze_model_evaluation) get a further "
+        "module-level drawing / seeding functions trapped; operations with a recorded known leak (training) get a further "
         "observation, aspect repeatable-modulo-known-leak: two runs under IDENTICAL global states and with every unseeded construction given the same fixed "
         "seed must agree (so a known finding cannot absorb a new cause); sampling.sample is also called twice on ONE model object under those conditions; "
         "aspect hash-seed: one instance in HASH_KINDS[kind] of every kind is run in two fresh interpreters that differ in PYTHONHASHSEED, process id and "
@@ -83,7 +83,8 @@ ASSUMPTIONS = [
     "runtime part: numpy.random module-level functions and default_rng are looked up on the module at call time by batchie code (checked: no 'from numpy.random import <function>' in /repo/src/batchie), so patching the module attributes traps them",
     "hidden randomness that bypasses numpy.random.<fn> / default_rng() / the seedless constructors RandomState() SeedSequence() PCG64() PCG64DXSM() MT19937() Philox() SFC64() (looked up on the numpy.random module at call time) and the global numpy / python / torch generator states (e.g. os.urandom, numpy.random.mtrand.RandomState imported by another path, a torch.Generator seeded from the clock) is visible only through differing outputs of the two runs or of the two fresh interpreters",
     "torch: only the CPU default generator (torch.get_rng_state()) is compared; Tensor methods that draw in place (x.normal_()) are not trapped by name - they show as a changed state; torch is observed only if some batchie module imported it (batchie.models.grid_combo does)",
-    "a declared --seed that a command never reads is a violation only if the command's output is not a function of its input files: evaluate_model is (theorem C18_model_is_source_cli_evaluate_model_seedless + runtime), analyze_model_evaluation is not (known finding)",
+    "a declared --seed that a command never reads is a violation only if the command's output is not a function of its input files: evaluate_model is (theorem C18_model_is_source_cli_evaluate_model_seedless + runtime); analyze_model_evaluation was not (seaborn's bootstrap; repaired: main() hands --seed to both regplot-drawing plots, theorems C18_source_cli_analyze_*, and the runtime observation judges it without any neutralisation)",
+    "analyze_model_evaluation link (configuration CLI_ANALYZE, shared with C20): trusted are the translator and one event per call - plotting.predicted_vs_observed_scatterplot[_per_sample](e, f, seed=s) = the event carrying Some s, the same call without the keyword = the event carrying None; that seaborn.regplot(seed=s) bootstraps from numpy.random.default_rng(s) and from nothing else is seaborn's contract (CliAnalyze.regplot_rng), checked at run time by the default_rng traps and the comparison of the published files",
     "two calls of sampling.sample on ONE model object are read as 'repeated with identical inputs' (sample() itself calls reset_model() first), as for generator / smoother / scorer / policy objects; the pipeline builds a fresh model per process, so the recorded finding does not affect it",
     "hold-out model: ceil(size * fraction) is computed over exact rationals; the harness uses dyadic fractions for which the float product is exact",
     "float scores cross the wire as order keys; DBAL scores themselves are not modelled here (C05), only the sub-sampling request",
@@ -110,7 +111,9 @@ EXPLANATION = (
     "operation with a recorded leak is observed once more with the leak neutralised (theorem C18_global_only_repeatable_from_equal_global: then it "
     "must be repeatable) so that the known signature cannot absorb a new cause, sampling.sample also twice on ONE model object (known finding: "
     "reset_model() is incomplete); the two remaining commands that declare --seed are run (evaluate_model: deterministic without it; "
-    "analyze_model_evaluation: known finding, seaborn's bootstrap is unseeded).  Not covered: ComboGridFactorModel through train_model's command line "
+    "analyze_model_evaluation: randomised by seaborn's bootstrap of two regression bands; its --seed was unread - finding analyze-model-evaluation-cli-ignores-seed, "
+    "REPAIRED: both plotting functions take seed= and main() passes args.seed; the whole main() is translated and proved to hand --seed to both calls, "
+    "C18_cli_analyze_unseeded_refuted is the witness about the pre-repair wrapper, corpus/C18/analyze_ignores_seed.json the replayed input).  Not covered: ComboGridFactorModel through train_model's command line "
     "(its constructor arguments are not expressible as --model-param), the nextflow pipelines, multi-process runs, CUDA generators.  "
     "COVERED BY PROOF since the source-translation links (theorems C18_model_is_source_*): RandomScorer.score, "
     "create_random_holdout, create_plate_balanced_holdout_set_among_masked_plates, FixedSizeSmoother._smooth_plates, "
@@ -196,6 +199,14 @@ THEOREMS.update({
     "C18_sparse_cover_explicit_stream": "the initial cover: RetroInit.sparse_cover (C13's model of SparseCoverPlateGenerator inside its public wrapper, answers as an explicit stream) consumes a prefix of the answers; output and unread rest are the same for every continuation of that prefix",
     "C18_source_sparse_cover_explicit_stream": "the same about the TRANSLATED source (generate_and_unmask_initial_plate around _generate_and_unmask_initial_plate, Generated/SrcRetroGen.v, with the fuel C13 proves sufficient): its only answer-reading primitive is rng.choice(a, size=1) on its own generator argument, and what it returns depends on the consumed prefix only",
     "C18_model_is_source_cli_evaluate_model_seedless": "evaluate_model.main (whole function, re-translated on this run) equals Cli.cli_evaluate_model, a function of the library record and Cli.ev_args = (screen, thetas, output): no seed component, no draw primitive in the vocabulary - the command is deterministic without reading its declared --seed (same statement as C10's link; re-stated so that C18 breaks when main() starts to read args.seed or to draw)",
+})
+# ---- analyze_model_evaluation.main reads its --seed (repair of the finding analyze-model-evaluation-cli-ignores-seed) ----
+THEOREMS.update({
+    "C18_model_is_source_cli_analyze": "analyze_model_evaluation.main (whole function, re-translated on this run; configuration CLI_ANALYZE shared with C20) equals CliAnalyze.cli_analyze = cli_analyze_gen true, for every library record and all parsed arguments: the two regplot-drawing plotting calls carry seed=args.seed (a call without the keyword translates to an event carrying None and breaks this obligation)",
+    "C18_source_cli_analyze_regplot_seeds": "a run of the translated main() that completes makes exactly two regplot-drawing calls (scatter plot, per-sample scatter plot), both with seed = --seed",
+    "C18_source_cli_analyze_bootstrap_seeded": "with seaborn's contract regplot(seed=s) -> default_rng(s) (a function of s when an int is given, OS entropy when None; generator and entropy types arbitrary): the bootstrap generators of the translated main() are [default_rng(--seed); default_rng(--seed)] in every world",
+    "C18_source_cli_analyze_entropy_free": "two runs of the translated main() on the same files with the same --seed under ANY two answers of the entropy source bootstrap from the same generators",
+    "C18_cli_analyze_unseeded_refuted": "REFUTED about the wrapper BEFORE the repair (cli_analyze_gen false: --seed parsed, no seed= at either call): files, a --seed and two answers of the entropy source for which the two runs bootstrap from different generators (the repaired defect; replayed on the implementation by corpus/C18/analyze_ignores_seed.json)",
 })
 THEOREMS['C18_parser_seed_default_draws'] = ('for any table with Cli.seed_declared: on the default --seed the generator construction of the wrappers '
                                              '(Cli.prng_of_seed, linked to get_prng_from_seed_argument) succeeds')
@@ -936,7 +947,6 @@ def op_name(d):
 GIBBS_FILES = ("models/sparse_combo.py", "models/sparse_combo_interaction.py")
 GRID_FILES = ("models/grid_combo.py", "models/grid_helper.py")
 SIG_GRID = "vi-grid-model-uses-global-numpy-and-torch-generators"
-SIG_ANALYZE = "analyze-model-evaluation-cli-ignores-seed"
 SIG_REUSE = "training-on-a-reused-model-object-not-reset"
 
 
@@ -950,8 +960,6 @@ def classify_trap(d, e):
                 return "calculate-scores-cli-ignores-seed"
             if site_ff(site) == "fast_mvn.py:sample_mvn_from_precision" and len(e["frames"]) > 1 and e["frames"][1].split(":")[0] in GIBBS_FILES:
                 return "gibbs-sampler-mvn-unseeded-default-rng"
-            if d["kind"] == "cli_analyze_model_evaluation" and site_ff(site) in KNOWN_ANALYZE_SITES:
-                return SIG_ANALYZE
             return "%s:unseeded-default_rng:%s" % (op_name(d), site_ff(site))
         return "%s:unseeded-%s:%s" % (op_name(d), e["fn"], site_ff(site))
     if f in GIBBS_FILES and not e["fn"].startswith("torch."):
@@ -986,8 +994,6 @@ KNOWN_GIBBS_UNSEEDED_SITES = {"fast_mvn.py:sample_mvn_from_precision"}
 # (torch.normal, torch._standard_gamma through torch.distributions) and of the guide / Predictive called from fit / sample
 KNOWN_GRID_GLOBAL_SITES = {"models/grid_helper.py:__iter__", "models/grid_helper.py:__next__", "models/grid_combo.py:model",
                            "models/grid_combo.py:fit", "models/grid_combo.py:sample"}
-# analyze_model_evaluation: seaborn's regplot bootstraps its confidence band from default_rng(None) at these two call sites
-KNOWN_ANALYZE_SITES = {"plotting.py:predicted_vs_observed_scatterplot", "plotting.py:predicted_vs_observed_scatterplot_per_sample"}
 KNOWN_GIBBS_UNSEEDED_CALLERS = {"_W_step", "_V2_step", "_V1_step"}
 
 
@@ -1101,12 +1107,11 @@ def judge(desc):
                 sig = SIG_GRID
                 pred += ("; the variational model draws from the global numpy and torch generators: %s; the generator passed to set_rng received %d "
                          "requests%s" % (summarize_traps(glob), n_req, "; torch.get_rng_state() changed" if r1["torch_changed"] else ""))
-            elif SIG_ANALYZE in causes:
-                sig = SIG_ANALYZE
-                diff = [x[0] for x, y in zip(r1["out"], r2["out"]) if x != y] if isinstance(r1["out"], list) and isinstance(r2["out"], list) else []
-                pred += "; --seed is parsed and never used; published files that differ: %s; %s" % (diff, summarize_traps(unseeded))
             else:
                 sig = op + ":repeatable:nondeterministic-output" + ((":" + causes[0]) if causes else "")
+                if d["kind"] == "cli_analyze_model_evaluation":
+                    diff = [x[0] for x, y in zip(r1["out"], r2["out"]) if x != y] if isinstance(r1["out"], list) and isinstance(r2["out"], list) else []
+                    pred += "; published files that differ: %s%s" % (diff, ("; unseeded generators: " + summarize_traps(unseeded)) if unseeded else "")
         elif r1["reqs"] != r2["reqs"]:
             pred = "%s: request sequences on the seeded generator differ between the two runs" % op
             sig = op + ":repeatable:request-trace-differs"
@@ -1407,7 +1412,8 @@ HASH_KINDS = {"pairwise": 1, "sparse_cover": 15, "plate_permutation": 15, "sampl
               "cli_evaluate_model": 9, "cli_analyze_model_evaluation": 9}
 # kinds with a recorded known leak (KNOWN_FINDINGS.json): they also get the observation LEAK_ASPECT, and their fresh-interpreter runs
 # are made with the leak neutralised (otherwise the unseeded generators alone make the two interpreters differ)
-LEAK_KINDS = ("sample", "cli_train_model", "cli_analyze_model_evaluation")
+# (cli_analyze_model_evaluation was one until its --seed was repaired: it is now judged as it runs, fresh interpreters included)
+LEAK_KINDS = ("sample", "cli_train_model")
 
 
 # operations that are methods of a constructible object: also asked twice on ONE object (aspect repeatable, key same_object);
